@@ -9,6 +9,7 @@ def main():
     ap = argparse.ArgumentParser()
     ap.add_argument("--checks", default="own")
     ap.add_argument("--tier", default="quick")
+    ap.add_argument("--keep", action="store_true", help="keep the scratch copy (replays, evidence) for inspection")
     ap.add_argument("seeds", nargs="+")
     a = ap.parse_args()
     base = tempfile.mkdtemp(prefix="seedrun-")
@@ -54,6 +55,9 @@ def main():
             print(json.dumps({"seed": d, "results": res}), flush=True)
     finally:
         subprocess.run(["git", "-C", "/repo", "worktree", "remove", "--force", wt], stdout=subprocess.DEVNULL, stderr=subprocess.DEVNULL)
-        shutil.rmtree(base, ignore_errors=True)
+        if a.keep:
+            print("kept: " + base, file=sys.stderr)
+        else:
+            shutil.rmtree(base, ignore_errors=True)
 
 main()
